@@ -267,8 +267,8 @@ Section TheoremA.
         by (intros g Hg; exact (u_closed _ _ _ _ _ HU _ g Ug' Hg)).
       pose proof (u_wf _ _ _ _ _ HU _ Ug) as Hwf. pose proof (u_wf _ _ _ _ _ HU _ Ug') as Hwf'.
       destruct g' as [name' tag' raises' lines' params' annot' is_class' bds'].
-      unfold skel in Hsk. cbn [fn_tag fn_raises fn_params fn_is_class] in Hsk.
-      injection Hsk as Etag Eraises Eparams Eclass Esteps. subst tag' raises' params' is_class'.
+      unfold skel in Hsk. cbn [fn_tag fn_raises fn_params fn_is_class fn_annot] in Hsk.
+      injection Hsk as Etag Eraises Eparams Eclass Eannot Esteps. subst tag' raises' params' is_class' annot'.
       cbn [fn_params]. split; [reflexivity|]. intros pv. rewrite !pv_fn_eq.
       unfold first_steps, first_body in Esteps. cbn [fn_bodies] in Esteps.
       unfold callees, first_steps, first_body in Hcl, Hcl'. cbn [fn_bodies] in Hcl, Hcl'.
@@ -396,7 +396,7 @@ Section TheoremA.
       intros line eline p g IHg pos kw s' cs cs' lines lines' a a' exts exts' vs vs' ch l R ch' l' R' c1 l1 R1 c1' l1' R1'
              Hcl Hcl' Hw Hw' Hsk H1 H2 E0 E1 L L'.
       destruct s' as [| | |line' eline' p' g' pos' kw'|]; cbn [skel_step] in Hsk; try discriminate Hsk.
-      injection Hsk as Hpos Hkw.
+      injection Hsk as Hpath Hpos Hkw.
       eapply cana_step_site in H1; [|reflexivity|reflexivity].
       eapply cana_step_site in H2; [|reflexivity|reflexivity].
       destruct H1 as (ph & named & c & Rc & _ & _ & Hc & Ec & _).
@@ -669,7 +669,7 @@ Section TheoremA.
         injection Hg' as Hg'; subst g0; cbn [skel_step] in Hsk; try discriminate Hsk; cbn [site_pv]; rewrite <- Hp.
     - injection Hsk as Hsk. subst. reflexivity.
     - reflexivity.
-    - injection Hsk as Hpos Hkw.
+    - injection Hsk as Hpath Hpos Hkw.
       rewrite (pos_eval_map en pos), (pos_eval_map en pos'), (kw_eval_map en kw), (kw_eval_map en kw'), Hpos, Hkw.
       reflexivity.
   Qed.
@@ -779,7 +779,7 @@ Section TheoremA.
     pose proof (Cons_U _ _ _ H) as Ug. pose proof (Cons_U _ _ _ H') as Ug'.
     destruct (body_determines_value g g' A A' R R' c R1 R1' Ug Ug' Hc Hc') as [Hp Hpv].
     pose proof (u_text _ _ _ _ _ HU _ _ Ug Ug' (same_content_same_lines _ _ _ _ _ _ _ _ _ Ug Ug' Hc Hc')) as Hsk.
-    unfold skel in Hsk. injection Hsk as _ _ _ Ecl Efs.
+    unfold skel in Hsk. injection Hsk as _ _ _ Ecl _ Efs.
     rewrite Hpv.
     destruct (fn_bodies g) as [|b r] eqn:Eb; destruct (fn_bodies g') as [|b' r'] eqn:Eb';
       unfold first_steps, first_body in Efs; rewrite Eb, Eb' in Efs; cbn [option_map] in Efs; try discriminate Efs.
@@ -800,7 +800,7 @@ Section TheoremA.
     intros g g' named named' site site' pv pv' R R' c R1 R1' Ug Ug' K K' Hc Hc'.
     destruct (body_determines_value g g' _ _ R R' c R1 R1' Ug Ug' Hc Hc') as [Hp Hpv].
     pose proof (u_text _ _ _ _ _ HU _ _ Ug Ug' (same_content_same_lines _ _ _ _ _ _ _ _ _ Ug Ug' Hc Hc')) as Hsk.
-    unfold skel in Hsk. injection Hsk as _ _ _ Ecl Efs.
+    unfold skel in Hsk. injection Hsk as _ _ _ Ecl _ Efs.
     rewrite Hpv.
     destruct (fn_bodies g) as [|b r] eqn:Eb; destruct (fn_bodies g') as [|b' r'] eqn:Eb';
       unfold first_steps, first_body in Efs; rewrite Eb, Eb' in Efs; cbn [option_map] in Efs; try discriminate Efs.
